@@ -188,6 +188,10 @@ struct upipe_xfer {
     struct upump *upump;
     /** remote upump_mgr */
     struct upump_mgr *upump_mgr;
+    /** number of events in the queue or about to be queued (the last slot is
+     * kept for the message telling that the remote pipe died, which must
+     * not be lost) */
+    uatomic_uint32_t nb_events;
     /** queue of messages (from remote pipe to main thread) */
     struct uqueue uqueue;
     /** extra data for the queue structure */
@@ -245,10 +249,20 @@ static int upipe_xfer_probe(struct uprobe *uprobe, struct upipe *remote,
     struct upipe_xfer *upipe_xfer = container_of(uprobe, struct upipe_xfer,
                                                  uprobe_remote);
     struct upipe *upipe = upipe_xfer_to_upipe(upipe_xfer);
+    struct upipe_xfer_mgr *xfer_mgr = upipe_xfer_mgr_from_upipe_mgr(upipe->mgr);
+
+    /* keep one slot for the death notice of the remote pipe */
+    if (unlikely(uatomic_fetch_add(&upipe_xfer->nb_events, 1) + 1 >=
+                 xfer_mgr->queue_length)) {
+        uatomic_fetch_sub(&upipe_xfer->nb_events, 1);
+        return UBASE_ERR_EXTERNAL;
+    }
 
     struct upipe_xfer_msg *msg = upipe_xfer_msg_alloc(upipe->mgr);
-    if (msg == NULL)
+    if (msg == NULL) {
+        uatomic_fetch_sub(&upipe_xfer->nb_events, 1);
         return UBASE_ERR_ALLOC;
+    }
 
     msg->type = xfer_event;
     msg->upipe_remote = remote;
@@ -260,6 +274,7 @@ static int upipe_xfer_probe(struct uprobe *uprobe, struct upipe *remote,
     if (unlikely(!uqueue_push(&upipe_xfer->uqueue, msg))) {
         upipe_xfer_release_urefcount_real(upipe);
         upipe_xfer_msg_free(upipe->mgr, msg);
+        uatomic_fetch_sub(&upipe_xfer->nb_events, 1);
         return UBASE_ERR_EXTERNAL;
     }
 
@@ -329,6 +344,7 @@ static struct upipe *_upipe_xfer_alloc(struct upipe_mgr *mgr,
         goto upipe_xfer_alloc_err2;
     }
 
+    uatomic_init(&upipe_xfer->nb_events, 0);
     struct upipe *upipe = upipe_xfer_to_upipe(upipe_xfer);
     upipe_init(upipe, mgr, uprobe);
     upipe_xfer_init_urefcount(upipe);
@@ -385,6 +401,8 @@ static void upipe_xfer_worker(struct upump *upump)
                 break;
         }
 
+        if (msg->type != UPROBE_DEAD)
+            uatomic_fetch_sub(&upipe_xfer->nb_events, 1);
         upipe_xfer_msg_free(upipe->mgr, msg);
         upipe_xfer_release_urefcount_real(upipe);
     }
@@ -464,6 +482,7 @@ static void upipe_xfer_free(struct upipe *upipe)
     struct upipe_xfer *upipe_xfer = upipe_xfer_from_upipe(upipe);
     upipe_throw_dead(upipe);
     uqueue_clean(&upipe_xfer->uqueue);
+    uatomic_clean(&upipe_xfer->nb_events);
     upipe_xfer_clean_upump(upipe);
     upipe_xfer_clean_upump_mgr(upipe);
     uprobe_clean(&upipe_xfer->uprobe_remote);
